@@ -160,6 +160,16 @@ def main():
                 h.elaborate(build(h, U.U_pair()[rnd.randint(0, 20)][1], "proc"))
             except Exception:
                 pass
+        if rnd.random() < 0.3:
+            # ... including designs in which the elaborator's generated names collide with the designer's (and get underscores appended)
+            try:
+                from harness.props import c05
+                pats = c05.base_patterns()
+                pat, D0, inv_s, inv_i = pats[rnd.randint(0, len(pats) - 1)]
+                rl = list(c05.relabel(pat, D0, inv_s, inv_i))
+                h.elaborate(build(h, rl[rnd.randint(0, len(rl) - 1)]["D"], "proc"))
+            except Exception:
+                pass
         if rnd.random() < 0.5:
             junk.clear()
         try:
@@ -168,6 +178,9 @@ def main():
                 top = pgen_build(h, E, p)
             else:
                 top = build(h, p["D"], p["style"])
+            if p.get("kind") == "flat":
+                from hdl21.flatten import flatten
+                top = flatten(top)
             pkg = h.to_proto(top)
             out.append({"key": f"{p['id']}|proto", "val": hashlib.sha256(pkg.SerializeToString(deterministic=True)).hexdigest()[:20]})
             for fmt in ("spice", "spectre", "verilog"):
